@@ -702,6 +702,16 @@ impl IdmServerProxyWriteTransaction<'_> {
             missing_scim.remove(&entry.get_uuid());
         });
 
+        // A sync agreement must never create entries in the system reserved uuid range. The
+        // stubs are made with an internal create, which is exempt from that check, so we
+        // have to enforce it here.
+        if missing_scim.keys().any(|u| *u < DYNAMIC_RANGE_MINIMUM_UUID) {
+            error!(
+                "Unable to proceed: sync entries must not use uuids in the system reserved range."
+            );
+            return Err(OperationError::InvalidEntryState);
+        }
+
         // For entries that do not exist, create stub entries. We don't create the external ID here
         // yet, because we need to ensure that it's unique.
         let create_stubs: Vec<EntryInitNew> = missing_scim
